@@ -1076,3 +1076,34 @@ mod tests {
         }
     }
 }
+
+/// Verification hooks: thin wrappers around internal kernels (feature `verif` only).
+#[cfg(feature = "verif")]
+pub mod verif_hooks_cfi {
+    use super::*;
+
+    /// `CallFrameInstruction::write`.
+    pub fn instruction_write<W: Writer>(
+        instruction: &CallFrameInstruction,
+        w: &mut W,
+        encoding: Encoding,
+        cie: &CommonInformationEntry,
+    ) -> Result<()> {
+        instruction.write(w, encoding, cie)
+    }
+
+    /// `write_advance_loc`.
+    pub fn advance_loc_write<W: Writer>(
+        w: &mut W,
+        code_alignment_factor: u8,
+        prev_offset: u32,
+        offset: u32,
+    ) -> Result<()> {
+        write_advance_loc(w, code_alignment_factor, prev_offset, offset)
+    }
+
+    /// `write_nop`.
+    pub fn nop_write<W: Writer>(w: &mut W, len: usize, align: u8) -> Result<()> {
+        write_nop(w, len, align)
+    }
+}
